@@ -20,6 +20,12 @@ Streams (model `Wpull.Decomp` vs the real code of the checkout under test):
            must decode as through a fresh Stream (decoder state is per response)
   e2e-seq  the same through read_response + read_body over ONE connection
            (Content-Length / chunked framing, lock-step delivery)
+  web      the layer above the Stream, as the crawler fetches: real
+           WebClient.session(request) -> start() -> download(file=...,
+           duration_timeout=...) over an in-memory connection pool, with the
+           timeout taken from --session-timeout through the real argument
+           parser and FetchRule (None, 0.5, 5, 30 s) x codings x framings x
+           file kept / None x truncated / corrupt; same oracle
   bomb     (family of body/e2e) 150 kB - 1 MB of zeros / repetitive text /
            repeated random words, cut so that a NON-final piece of 100 / 1460 /
            4096 bytes inflates to far more than 64 KiB
@@ -58,6 +64,7 @@ RULE = ('payloads (empty / tiny / text / random / runs, 0..70 kB) x compression 
         'all single bytes, random) plus truncation at every cut position and byte corruption / insertion / deletion; '
         'e2e: framing (close, length, chunked, bad length, ignore_length) x body kept / discarded (file=None) / raw; '
         'seq: all 36 ordered pairs of codings (x3) + random triples through one Stream object, function level and over one connection; '
+        'web: WebClient/WebSession fetch x session timeout (None, 0.5, 5, 30) x codings x framings x file kept/None; '
         'bomb: highly compressible 150 kB-1 MB payloads where a non-final piece inflates past 64 KiB; '
         'non-trivial = a decoder object is selected and the body is not empty; distinct by (coding, body, pieces, level)')
 TRUSTED = ['zlib (zlib.decompressobj): opaque streaming inflater; its chunking invariance (same total output, eof flag and '
@@ -1117,6 +1124,183 @@ def family_bomb(ctx, rng, batch, n, max_size):
                              for st in ('close', 'length', 'chunked') for fm in ('keep', 'none')])
 
 
+# ------------------------------------------------------------------ the layer above the Stream: WebClient / WebSession
+_TIMEOUT_CACHE = {}
+
+
+def fetch_rule_timeout(value):
+    """--session-timeout through the real argument parser and the real FetchRule (the option glue of
+    wpull/application/tasks/download.py: FetchRule(duration_timeout=args.session_timeout))."""
+    if value not in _TIMEOUT_CACHE:
+        try:
+            from wpull.application.options import AppArgumentParser
+            from wpull.processor.rule import FetchRule
+            argv = ['http://h/'] + ([] if value is None else ['--session-timeout', repr(value)])
+            args = AppArgumentParser().parse_args(argv)
+            _TIMEOUT_CACHE[value] = ('parser', FetchRule(duration_timeout=args.session_timeout).duration_timeout)
+        except Exception as e:  # noqa  (option glue not importable: use the value directly, say so in the evidence)
+            _TIMEOUT_CACHE[value] = ('direct:' + type(e).__name__, value)
+    return _TIMEOUT_CACHE[value]
+
+
+class _OneResponse:
+    """answers the first request on a connection with the scripted segments"""
+
+    def __init__(self, segs):
+        self.segs = segs
+
+    async def serve(self, conn):
+        while b'\r\n\r\n' not in conn.received and not conn.client_closed:
+            await asyncio.sleep(0)      # (the request may already be there when this task first runs)
+        await conn.send_segments(self.segs, eof=True, yields=2)
+
+
+def real_web(header_value, strategy, wire_body, cuts, regions, timeout, keep):
+    """Fetch as the crawler does: WebClient.session(request) -> start() -> download(file=..., duration_timeout=...)
+    -> (res, pieces the Stream read, log, odd)"""
+    from wpull.protocol.http.client import Client
+    from wpull.protocol.http.web import WebClient
+    from wpull.protocol.http.request import Request
+    from wpull.protocol.http.stream import Stream
+    from wpull.network.pool import ConnectionPool
+    from wpull.body import Body
+    head = b'HTTP/1.1 200 OK\r\n'
+    if header_value is not None:
+        head += b'Content-Encoding: ' + header_value.encode('latin-1') + b'\r\n'
+    if strategy == 'length':
+        head += b'Content-Length: %d\r\n' % len(wire_body)
+    elif strategy == 'chunked':
+        head += b'Transfer-Encoding: chunked\r\n'
+    head += b'\r\n'
+    segs = [head] + fakenet.segment(wire_body, cuts)
+    seen = []
+
+    def stream_factory(connection):
+        st = Stream(connection)
+        st.data_event_dispatcher.add_read_listener(lambda d: seen.append(bytes(d)))
+        return st
+
+    async def go():
+        net = fakenet.FakeNet()
+        net.listen('10.0.0.1', 80, lambda: _OneResponse(segs))
+        with net:
+            pool = ConnectionPool(resolver=fakenet.FakeResolver())
+            web_client = WebClient(http_client=Client(connection_pool=pool, stream_factory=stream_factory))
+            session = web_client.session(Request('http://h/'))
+            body = Body(io.BytesIO()) if keep else None
+
+            async def client():
+                await compat._ensure(session.start())
+                await compat._ensure(session.download(file=body, duration_timeout=timeout))
+
+            task = asyncio.ensure_future(client())
+            done = await fakenet.settle(task, net.tasks, extra=200)
+            if not done:
+                task.cancel()
+                return ('stalled',)
+            try:
+                task.result()
+            except Exception as e:  # noqa
+                return ('exc', classify_exc(e))
+            return ('ok', body.content() if keep else None)
+
+    with logged_zlib() as z:
+        res = compat.run(go())
+    # notified items after the header block
+    items, off = [], 0
+    for item in seen:
+        if off >= len(head):
+            items.append(item)
+        off += len(item)
+    pieces = []
+    if strategy == 'chunked':
+        off = 0
+        for item in items:
+            for (a, b) in regions:
+                if a <= off and off + len(item) <= b and item:
+                    pieces.append(item)
+                    break
+            off += len(item)
+    else:
+        pieces = [x for x in items if x]
+    return res, pieces, z.log, z.odd
+
+
+def stream_web(ctx, cases):
+    """cases: (coding, header value|None, body, strategy, meta, seed, timeout, keep)"""
+    rows, reqs = [], []
+    for (coding, hdr, body, strategy, meta, seed, timeout, keep) in cases:
+        rng = ctx.subrng('web/%s' % seed)
+        if strategy == 'chunked':
+            wire, regions = chunked_frame(rng, body)
+        else:
+            wire, regions = body, None
+        cuts = fakenet.random_cuts(rng, len(wire), rng.choice(['none', 'one', 'few', 'many', 'bytes'] if len(wire) < 400
+                                                               else ['none', 'one', 'few']))
+        how, t = fetch_rule_timeout(timeout)
+        ctx.note('web_option_glue', how)
+        res, pieces, log, odd = real_web(hdr, strategy, wire, cuts, regions, t, keep)
+        rows.append((coding, hdr, body, strategy, meta, seed, timeout, keep, res, pieces, log, odd, wire))
+        reqs.append('decomp web %s %s %s %s %s' % ('T' if keep else 'F', 'None' if timeout is None else int(timeout * 1000),
+                                                   enc_opt(hdr), enc_pieces(pieces), enc_log(log)))
+    reps = ctx.model.ask(reqs)
+    for (coding, hdr, body, strategy, meta, seed, timeout, keep, res, pieces, log, odd, wire), rep in zip(rows, reps):
+        case = {'stream': 'web', 'coding': coding, 'header': hdr, 'body': body, 'strategy': strategy, 'meta': meta,
+                'seed': seed, 'timeout': timeout, 'keep': keep}
+        ctx.case(('web', coding, body, strategy, seed, timeout, keep), nontrivial=(coding != 'i' and len(body) > 0),
+                 tags=['web:' + strategy + ':' + coding, 'web:timeout=%s' % timeout, 'web:file=' + ('keep' if keep else 'none'),
+                       'web:result=' + (res[0] if res[0] != 'exc' else res[1])])
+        if res[0] == 'stalled':
+            ctx.disagree('web', case, 'completes', 'stalled')
+            continue
+        # model: `ok <content>|exc <name>  <raw flag>  <unconsumed log entries>`
+        real = (fmt_res(res) if keep or res[0] != 'ok' else 'ok -') + ' F 0'
+        if rep != real:
+            ctx.disagree('web', case, rep[:400], real[:400])
+        if odd:
+            ctx.disagree('web-zlib-api', case, 'plain calls', odd[0])
+        monitor_zlib(ctx, log, case)
+        ref = reference(coding, body)
+        if keep:
+            oracle(ctx, case, coding, body, res, res, ref, meta, where='web_download')
+        elif ref[0] == 'err':
+            if res[0] == 'ok':
+                ctx.fail('truncated-accepted' if meta.get('mut') == 'truncated' else 'corrupt-accepted', 'web_download_discard',
+                         case, 'one-shot zlib rejects the body; WebSession.download(file=None) returned without an error')
+            elif res[1] != 'ProtocolError':
+                ctx.fail('not-protocol-error', 'web_download_discard', case, 'undecodable body raised %s' % res[1])
+        elif ref[0] == 'ok' and res[0] != 'ok':
+            ctx.fail('wrong-content', 'web_download_discard', case, 'decodable body raised %s with file=None' % res[1])
+    if rows:
+        r = rows[0]
+        ctx.sample({'stream': 'web', 'coding': r[0], 'strategy': r[3], 'timeout': r[6], 'keep': r[7], 'body': r[2]})
+
+
+WEB_TIMEOUTS = (None, 5, 0.5, 30.0)
+
+
+def family_web(ctx, rng, n):
+    cases = []
+    kinds = list(SEQ_KINDS)
+    for i in range(n):
+        kind = kinds[i % len(kinds)] if i < 4 * len(kinds) else rng.choice(kinds[:3] * 2 + kinds)
+        hdr, fmt, coding = SEQ_KINDS[kind]
+        payload = gen_payload(rng, rng.choice([0, 1, 5, 40, 300, 6000]))
+        body, desc = make_body(rng, fmt, payload)
+        meta = {'fmt': fmt, 'enc': desc, 'mut': 'valid'}
+        r = rng.random()
+        if r < 0.3 and body and fmt != 'plain':
+            body = body[:rng.randrange(1, len(body))]
+            meta['mut'] = 'truncated'
+        elif r < 0.45 and fmt != 'plain':
+            body, meta['mut'] = mutate(rng, body)
+        for strategy in ('close', 'length', 'chunked'):
+            for timeout in WEB_TIMEOUTS:
+                keep = not (i + WEB_TIMEOUTS.index(timeout)) % 3 == 0
+                cases.append((coding, hdr, body, strategy, meta, '%d/%d/%s/%s' % (ctx.seed, i, strategy, timeout), timeout, keep))
+    stream_web(ctx, cases)
+
+
 # ------------------------------------------------------------------ entry points
 def load_corpus(ctx):
     out = []
@@ -1157,6 +1341,9 @@ def replay(ctx, case, kind=None, where=None):
         else:
             for n in range(8):           # the framing / segmentation is drawn from the seed
                 stream_e2e_seq(ctx, [seq], 'replay/%d' % n)
+    elif s == 'web':
+        stream_web(ctx, [(case['coding'], case['header'], case['body'], case['strategy'], case.get('meta', {}), case['seed'],
+                          case.get('timeout'), case.get('keep', True))])
     elif s == 'hdr':
         stream_hdr(ctx, [case['data']])
     elif s == 'coding':
@@ -1185,6 +1372,7 @@ def run(ctx):
     family_wrapper(ctx, rng, batch, ctx.scale(150, 4000))
     family_e2e(ctx, rng, ctx.scale(200, 4000))
     family_seq(ctx, rng, ctx.scale(60, 1500))
+    family_web(ctx, rng, ctx.scale(60, 1200))
     family_bomb(ctx, rng, batch, ctx.scale(6, 20), 400000 if not thorough else 1000000)
 
 
@@ -1197,4 +1385,5 @@ def search(ctx):
     family_corrupt(ctx, rng, batch, ctx.scale(100, 300))
     family_e2e(ctx, rng, ctx.scale(10, 30))
     family_seq(ctx, rng, ctx.scale(5, 10))
+    family_web(ctx, rng, ctx.scale(5, 10))
     family_bomb(ctx, rng, batch, max(4, ctx.scale(1, 1) // 2), 600000)
